@@ -40,6 +40,7 @@ package memberlist
 //@ ghost $ev Trace
 //@ ghost $bq Trace
 //@ ghost $cf Trace
+//@ ghost $registered bool   // the local node has been entered into the node map (set by aliveNode; Create does it through setAlive)
 //@ ghost $wrapped bool   // set when an atomic counter declared `rely nondecreasing` wraps around
 
 //@ pure dol(st NodeStateType) bool := st == StateDead || st == StateLeft
@@ -77,6 +78,7 @@ package memberlist
 //@   inv N5b [C06]: forall n string :: has(m.nodeTimers, n) ==> allocated(m.nodeTimers[n])
 //@   inv N5c [C06]: forall n string :: has(m.nodeTimers, n) ==> suspOK(m.nodeTimers[n])
 //@   inv N6 [C02]: has(m.nodeMap, m.config.Name) ==> m.nodeMap[m.config.Name].State != StateSuspect
+//@   inv N6r [C02,C20]: $registered ==> has(m.nodeMap, m.config.Name)
 //@   inv N7 [C01]: forall n string :: has(m.nodeMap, n) ==> 0 <= m.nodeMap[n].State && m.nodeMap[n].State <= 3
 //@   inv N9 [C02]: !$wrapped && has(m.nodeMap, m.config.Name) && !(dol(m.nodeMap[m.config.Name].State) && m.leave == 1) ==> m.nodeMap[m.config.Name].Incarnation <= m.incarnation
 
@@ -237,6 +239,7 @@ package memberlist
 //@   requires ok: mlOK(m) && a != nil
 //@   requires boot: bootstrap && a.Node == m.config.Name ==> a.Incarnation <= m.incarnation
 //@   at call time.Since: set $reclaimAge := res
+//@   at call (*sync/atomic.Uint32).Add: set $registered := $registered || a.Node == m.config.Name
 //@   let n := a.Node
 //@   let h := old(has(m.nodeMap, a.Node))
 //@   let r := old(m.nodeMap[a.Node])
@@ -909,9 +912,13 @@ package memberlist
 //@ func (*Memberlist).LocalNode(m)
 //@   safety [C20]
 //@   requires ok: mlNet(m)
+//@   requires created: $registered      // the public API is used after Create returned
+//@   ensures nn [C20]: result != nil
 //@ func (*Memberlist).UpdateNode(m, timeout)
 //@   safety [C20]
+//@   panics documented
 //@   requires ok: mlNet(m)
+//@   requires created: $registered
 //@ func (*Memberlist).Members(m)
 //@   safety [C07,C20]
 //@   requires ok: mlNet(m)
@@ -1018,3 +1025,11 @@ package memberlist
 //@   ensures Z-quiet [C01,C07]: quiet()
 //@   ensures Z-live [C07]: forall x string :: old(live(m, x)) == live(m, x)
 //@   ensures Z-timers [C06]: sameTimers(m)
+
+// Shutdown / deschedule: close exactly once
+//@ lock Memberlist.shutdownLock recv m
+//@   protects $closed
+//@   inv SD [C20]: m.shutdown == 0 ==> m.shutdownCh != nil && !closed(m.shutdownCh)
+//@ lock Memberlist.tickerLock recv m
+//@   protects Memberlist.tickers, Memberlist.stopTick, elems *time.Ticker, $closed
+//@   inv TK [C20]: len(m.tickers) > 0 ==> m.stopTick != nil && !closed(m.stopTick) && (forall i int :: 0 <= i && i < len(m.tickers) ==> m.tickers[i] != nil)
